@@ -29,6 +29,7 @@ class StreamFromGenerator(DefaultPublisherSubscription, Disposable):
         self._subscriber: Optional[Subscriber] = None
         self._payload_feeder = None
         self._iteration = None
+        self._generator = None
         self._request_n_queue = asyncio.Queue()
         self._n_feeder = None
         self._on_complete = on_complete
